@@ -157,7 +157,7 @@ def _explore(cfg, tier, only=None):
     counters = {"preserving": 0}
 
     def on_transition(hist, ev, st):
-        if only is not None and (hist != only["history"] or ev != only["event"]):
+        if only is not None and only != "direct" and (hist != only["history"] or ev != only["event"]):
             return _apply(st, ev) if only is not None and len(hist) < len(only["history"]) else None
         case = {"cfg": cfg, "tier": tier, "history": hist, "event": ev}
         journal(repr(case))
@@ -198,7 +198,13 @@ def _explore(cfg, tier, only=None):
                     viol.append(violation(PID, case, dict(fields, sub="refreeze_changed"), f"refreeze_changed: freezing an already frozen model changed the stored payload (history {hist})"))
         return st
 
-    res = lifecycle.bfs_local(lambda: St(cfg), lambda st: _events(st, tier), _apply, lambda st: lifecycle.model_hash(st.model), on_transition, depth)
+    on_transition.apply = _apply
+    if only == "direct":
+        return on_transition, viol
+    if cfg.get("long"):
+        res = lifecycle.long_paths(lambda: St(cfg), lambda st: _events(st, "thorough"), on_transition, cfg["long"], 3 if tier == "quick" else 6)
+    else:
+        res = lifecycle.bfs_local(lambda: St(cfg), lambda st: _events(st, tier), _apply, lambda st: lifecycle.model_hash(st.model), on_transition, depth)
     res["preserving"] = counters["preserving"]
     return res, viol
 
@@ -215,6 +221,11 @@ def _cfgs(tier):
         for w in ("qint8", "qfloat8_e4m3fn", "qint4", "qint2"):
             for a in (None, "qint8"):
                 out.append({"model": model, "w": w, "a": a, "dt": "float32", "opt": True})
+    # depth ladder: a few fixed long histories per configuration (counters, caches that evict or go stale, accumulated drift)
+    for model in ("mlp", "ln", "conv", "idiv"):
+        for w in ("qint8", "qfloat8_e4m3fn", "qint4"):
+            for a in (None, "qint8"):
+                out.append({"model": model, "w": w, "a": a, "dt": "float32", "long": 40 if tier == "quick" else 120})
     # size ladder: large layers (tiling / blocking / caching code paths), shallow histories
     for model in ("big_lin", "big_pair", "big_conv"):
         for w in ("qint8", "qfloat8_e4m3fn", "qint4", "qint2"):
@@ -233,7 +244,7 @@ def run_task(task):
     for v in viol:
         seen.setdefault(str(sorted(v["fields"].items())), v)
     out = {"evals": res["transitions"], "nontrivial": res["preserving"], "points": res["states"], "calls": res["transitions"], "violations": list(seen.values())[:30], "nviol": len(viol),
-           "counters": {"frontier_emptied": int(res["frontier_emptied"]), "unexpanded": res["unexpanded"], "max_depth": res["max_depth"]}, "samples": []}
+           "counters": {"frontier_emptied": int(res["frontier_emptied"]), "unexpanded": res["unexpanded"], "max_depth": res["max_depth"], "long_paths": res.get("long_paths", 0), "long_steps": res.get("long_steps", 0)}, "samples": []}
     if task["cfg"] == {"model": "mlp", "w": "qint4", "a": "qint8", "dt": "float16"}:
         out["samples"] = [{"config": task["cfg"], "history": h} for h in res["samples"]]
     return out
@@ -247,11 +258,11 @@ def replay_task(case):
     if case.get("event") is None:
         return _explore(case["cfg"], case["tier"])[1]
     # replay exactly one transition
+    on_transition, viol = _explore(case["cfg"], case["tier"], only="direct")
     st = St(case["cfg"])
     for ev in case["history"]:
         st = _apply(st, ev)
-    viol = []
-    res, viol = _explore(case["cfg"], case["tier"], only={"history": case["history"], "event": case["event"]})
+    on_transition(list(case["history"]), case["event"], st)
     return viol
 
 
@@ -269,5 +280,6 @@ def coverage(agg, tier, tasks):
         "configs_whose_state_space_saturated": agg.counters.get("frontier_emptied", 0),
         "unexpanded_frontier_states": agg.counters.get("unexpanded", 0),
         "depth": 5 if tier == "quick" else 7,
+        "depth_ladder": {"fixed_long_paths": agg.counters.get("long_paths", 0), "steps": agg.counters.get("long_steps", 0), "length": 40 if tier == "quick" else 120},
         "exhaustive": True,
     }
